@@ -156,6 +156,7 @@ BREAKING = [
     dict(id="b230", multi=[(Q, "            else:\n                raise ValueError(\"Item with same or equivalent definition \"\n                                 f\"already registered: '{reg_cls}'.\")\n", "            else:\n                pass\n"),
                           (Q, "        cls._reg_id = QuantityMeta._registry.register_item(cls)", "        try:\n            cls._reg_id = QuantityMeta._registry.register_item(cls)\n        except ValueError:\n            cls._reg_id = -1")], props=["C02"]),
     dict(id="b231", file=R, old="            elif self._unique_items:\n", new="            elif self._unique_items and idx < 0:\n", props=["C02"]),
+    dict(id="b240", file="src/quantity/exceptions.py", old="class IncompatibleUnitsError(QuantityError):", new="class IncompatibleUnitsError(TypeError):", props=["C18"]),
     dict(id="b212", file=M, old="        if cls._converters[-1] is conv:\n            cls._converters.pop()", new="        if cls._converters[-1] is conv:\n            del cls._converters[0]", props=["C12"]),
 ]
 BREAKING = [b for b in BREAKING if b["props"]]
